@@ -574,21 +574,49 @@ def _must_reject(prop, content, where, rmode, stats, log, full_len, on_disk=None
     """load() of the torn state must raise.  content: bytes for a fresh file, or None with on_disk set."""
     d = disk.SimDisk(content, backing=BACKING[0]) if on_disk is None else on_disk
     size = len(content) if on_disk is None else d.size()
+    loaded = None
     try:
         try:
             loaded = real_load(d, rmode)
         except Exception as e:  # the required outcome
             log.add(where, size, type(e).__name__)
             stats.count("rejected_" + type(e).__name__)
-            return
+        else:
+            how = "%s handle on the file" % rmode
     finally:
         if on_disk is None:
             d.close()
+    if loaded is None and content is not None and size % 3 == 0:
+        # the same torn bytes reaching load() through handles that cannot be mapped: an in-memory stream and a pipe
+        IndxIO = catii_indxio()
+        streams = [("BytesIO", io.BytesIO(content))]
+        if size <= 32768 and size % 4 == 0:
+            r, w = os.pipe()
+            os.write(w, content)
+            os.close(w)
+            streams.append(("pipe", os.fdopen(r, "rb")))
+        for name, fobj in streams:
+            try:
+                with warnings.catch_warnings():
+                    warnings.simplefilter("ignore")
+                    loaded = IndxIO.load(fobj)
+                how = name
+                break
+            except Exception:
+                stats.count("rejected_through_" + name)
+                loaded = None
+            finally:
+                try:
+                    fobj.close()
+                except Exception:
+                    pass
+    if loaded is None:
+        return
     ents = loaded[0]
     raise Violation(
         prop, "torn-file-loaded", where.split(":")[0],
-        "a %d-byte prefix state of a %d-byte file loaded without error (%s): %d entries, common %r"
-        % (size, full_len, where, len(ents), loaded[1]),
+        "a %d-byte prefix state of a %d-byte file loaded without error (%s, via %s): %d entries, common %r"
+        % (size, full_len, where, how, len(ents), loaded[1]),
         extra={"cut": size, "where": where},
     )
 
